@@ -313,6 +313,24 @@ def one_late_in_time(policy, n_frames: int = 3) -> bool:
             and not (late[0][0] == (2, "R") and n_frames > 3))
 
 
+def all_in_time(policy, n_frames: int = 3) -> bool:
+    """nothing lost or repeated, and every frame reaches its addressee inside the wait that end is in (each wait starts at
+    that end's own last step: respondent 5 s for the Offer from its start, supplicant 5 s for the Accept from its Offer,
+    respondent 3 s for the Confirm from its Accept, 3 s for the addenda from the Confirm), with 0.5 s to spare"""
+    d = {}
+    for k in RECEIVING:
+        v = policy.get(k, [0.0])
+        if len(v) != 1:
+            return False
+        d[k] = v[0]
+    if any(v != [0.0] for k, v in policy.items() if k not in RECEIVING):
+        return False
+    ok = d[(0, "R")] <= 4.5 and d[(0, "R")] + d[(1, "S")] <= 4.5 and d[(1, "S")] + d[(2, "R")] <= 2.5
+    if n_frames > 3:
+        ok = ok and 0.0 <= d[(3, "R")] - d[(2, "R")] <= 2.5
+    return ok
+
+
 def nothing_lost(policy) -> bool:
     return all(policy.get((i, w), [0.0]) and min(policy.get((i, w), [0.0])) < 2.5 for i in range(4) for w in ("R", "S"))
 
@@ -351,8 +369,8 @@ def score(chk: Check, flow_name, scen, o, rep) -> None:
                     for d, fr in third)
     if competing:
         chk.count("competing_third_party_offer")
-    if who == "both" and not competing and not opts.get("cancel") and not opts.get("refuse") and nothing_lost(policy) \
-            and (one_late_in_time(policy, n) or not any(d for d in policy.values() if d and min(d) > 0.4)):
+    if who == "both" and not competing and not opts.get("cancel") and not opts.get("refuse") and (all_in_time(policy, n) or (nothing_lost(policy)
+            and (one_late_in_time(policy, n) or not any(d for d in policy.values() if d and min(d) > 0.4)))):
         for k in ("R", "S"):
             if o[k][0] != "ok":
                 chk.violation(f"c20.failed_without_loss.{k}", f"{flow_name}: nothing was lost or late, yet the {'respondent' if k == 'R' else 'supplicant'} ended with {o[k]}", rep)
@@ -405,6 +423,24 @@ def run(chk: Check) -> None:
                     late = gen_policy(rnd, "clean")
                     late[rnd.choice(RECEIVING)] = [rnd.choice((1.0, 2.0, 2.5))]   # one frame reaches its addressee late, within the wait
                     scenarios.append((late, [], "both"))
+            if rnd.random() < 0.5:
+                # several frames late, each within its own wait (the waits do not add up to one overall limit)
+                late = gen_policy(rnd, "clean")
+                d0 = rnd.choice((0.0, 2.0, 4.0, 4.5))
+                d1 = rnd.choice([x for x in (0.0, 0.5, 2.0, 2.5) if d0 + x <= 4.5])
+                d2 = rnd.choice([x for x in (0.0, 0.5, 2.0, 2.5) if d1 + x <= 2.5])
+                late[(0, "R")], late[(1, "S")], late[(2, "R")] = [d0], [d1], [d2]
+                if len(FLOWS[flow_name][2]) > 3:
+                    late[(3, "R")] = [d2 + rnd.choice((0.0, 1.0, 2.5))]
+                scenarios.append((late, [], "both"))
+            if rnd.random() < 0.4:
+                # the slowest handshakes that are still in time: every wait used up to its last half second
+                slow = gen_policy(rnd, "clean")
+                a, b, c = rnd.choice(((4.5, 0.0, 2.5), (2.0, 2.5, 0.0), (4.0, 0.5, 2.0)))
+                slow[(0, "R")], slow[(1, "S")], slow[(2, "R")] = [a], [b], [c]
+                if len(FLOWS[flow_name][2]) > 3:
+                    slow[(3, "R")] = [c + 2.5]
+                scenarios.append((slow, [], "both"))
             if len(FLOWS[flow_name][2]) > 3 and rnd.random() < 0.6:
                 # a flow with addenda: an attempt *with* the addenda step that fails (the addenda, or something before it, is lost),
                 # then the same pair binds *without* that step
